@@ -498,7 +498,11 @@ def generated_history(job):
         if rng.random() < 0.4:
             doc['editions'] = doc['editions'][:1]
         for edi in doc['editions']:
+            # a run cannot have used more batches than the batch of the edition (in a parallel
+            # listing the scanner takes the largest 'number of batches used' as the edition's batch)
             edi['used'] = min(edi['used'], edi['batch'])
+            if edi.get('keff'):
+                edi['keff']['used'] = min(edi['keff']['used'], edi['batch'])
         if para:
             plines = open(os.path.join(repo, DATA, 'ttsSimplePacket20.d.PARA.res.ceav5'), encoding='utf-8',
                           errors='ignore').read().split('\n')
